@@ -306,8 +306,12 @@ class Single(explore.System):
         elif kind in ACK_BEARING:
             if outs:
                 viol.append(("acknowledgement_answered", case))
-            # connected flag after an ack-bearing connect/close is not defined by the statement: follow the implementation
-            self.m_connected = self.impl.hstrp_connected
+            # "last connect/close seen": a datagram with the connect (close) bit is a connect (close) seen, also when it is the peer's
+            # confirmation of our own connect (close) -- that is how the side that opened the connection ever becomes connected
+            if kind == "CONNECT_ACK":
+                self.m_connected = True
+            elif kind == "CLOSE_ACK":
+                self.m_connected = False
         elif kind in ("CONNECT", "CONNECT_SN", "CLOSE", "CONNECT_RTP"):
             if len(outs) != 1 or not is_ack_for(outs[0], data):
                 viol.append(("connect_close_not_acknowledged_exactly_once", case))
@@ -538,7 +542,7 @@ def run(only=None):
     )
     rep.assumptions = [
         "datetime.now replaced by a constant clock; no real transport (recording DatagramTransport)",
-        "the connected flag after an ack-bearing CONNECT/CLOSE (CONNECT|ACK, CLOSE|ACK) is not defined by the statement and follows the implementation",
+        "a datagram with the connect (close) bit counts as 'a connect (close) seen' whether or not it also carries the ACK bit (CONNECT|ACK is how the side that opened the connection learns it is connected); plain ACKs leave the flag alone",
         "REJECT datagrams: the statement does not say whether they are acknowledged; only 'at most one answer, no exception' is required",
         "closed system: heartbeat echoes between two connected handlers are permitted by the statement and are counted, not re-delivered",
         "the registration answer is located by its trailing RRS frame (the library emits it with the option bit set but no option chain)",
